@@ -258,10 +258,93 @@ func RunC03(tier string) int {
 		}
 		runJobs("3-rule files (12-rule core)", mk(three, []int{1, 2}, consumers[:2]))
 	}
+	// ---- consumer: packages fetched into a bundle ----
+	runBundle := func(name string, ruleFiles [][]string, universes []int) {
+		if time.Now().After(deadline) {
+			rep.Exhaustive = false
+			return
+		}
+		type bj struct {
+			rules []string
+			u     int
+		}
+		var bjobs []bj
+		for _, rf := range ruleFiles {
+			for _, u := range universes {
+				bjobs = append(bjobs, bj{rf, u})
+			}
+		}
+		bargs := make([]BuildArg, len(bjobs))
+		failed := 0
+		pool.Map("build", len(bjobs), func(i int) any {
+			var files []TNode
+			for _, n := range c03Universe(bjobs[i].u) {
+				files = append(files, TNode{Path: strings.TrimPrefix(n.Path, "src/"), Kind: "file", Body: n.Body})
+			}
+			files = append(files, TNode{Path: ".terraformignore", Kind: "file", Body: strings.Join(bjobs[i].rules, "\n") + "\n"})
+			bargs[i] = BuildArg{World: World{Pkgs: []WPkg{{Addr: P1, Files: files, NilMeta: true}}}, Adds: []AddCall{{Kind: "remote", Addr: P1, Finder: "F1"}}, Probes: []string{P1}}
+			return bargs[i]
+		}, func(i int, r core.Result) {
+			rep.Evaluations++
+			desc := fmt.Sprintf("consumer=bundle-package universe=%d rules=%q", bjobs[i].u, bjobs[i].rules)
+			if r.Hung || r.Crashed {
+				rep.Violation("sourcebundle.Builder/hang-or-crash", desc, "build", bargs[i])
+				return
+			}
+			var out BuildOut
+			core.MustOut(r, &out)
+			if out.Bundle == nil {
+				failed++
+				rep.NoVerdict++
+				rep.Outcome("bundle-build-failed(no verdict)")
+				for _, a := range out.Adds {
+					if a.Panic != "" {
+						rep.Violation("sourcebundle.Builder/panic", desc+" panic: "+a.Panic, "build", bargs[i])
+					}
+				}
+				return
+			}
+			rules := append(ref.Builtin(), ref.ParseRules(strings.Join(bjobs[i].rules, "\n"))...)
+			present := map[string]bool{}
+			for _, n := range out.Bundle.Nodes {
+				if n.Type == "file" {
+					present[n.Rel] = true
+				}
+			}
+			var wrongIn, wrongOut []string
+			for _, f := range bargs[i].World.Pkgs[0].Files {
+				ex := ref.Excluded(rules, f.Path)
+				if ex && present[f.Path] {
+					wrongIn = append(wrongIn, f.Path)
+				}
+				if !ex && !present[f.Path] {
+					wrongOut = append(wrongOut, f.Path)
+				}
+			}
+			rep.Outcome("compared")
+			if len(wrongIn)+len(wrongOut) > 0 {
+				sort.Strings(wrongIn)
+				sort.Strings(wrongOut)
+				sig := "sourcebundle.Builder/" + c03Classify(bjobs[i].rules, c03Consumer{Ignore: true}, wrongIn, wrongOut)
+				rep.Violation(sig, fmt.Sprintf("%s :: excluded-by-rules-but-kept=%q not-excluded-but-removed=%q", desc, wrongIn, wrongOut), "build", bargs[i])
+			}
+		})
+		rep.States += len(bjobs)
+		rep.Transitions += len(bjobs)
+		setStats = append(setStats, map[string]any{"set": name, "runs": len(bjobs), "failed_builds_no_verdict": failed})
+		fmt.Printf("  set %s: runs=%d (failed builds, no verdict: %d)\n", name, len(bjobs), failed)
+	}
+	runBundle("bundle: misc", misc, []int{1, 2})
+	runBundle("bundle: 1-rule files (full alphabet)", one, []int{1, 2})
+	if thorough {
+		runBundle("bundle: 2-rule files (full alphabet)", two, []int{1})
+	} else {
+		runBundle("bundle: 2-rule files (core alphabet)", two, []int{1})
+	}
 	rep.Extra["sets"] = setStats
 	rep.Extra["rule_alphabet"] = len(all)
-	rep.Rule = "every rule file of 1 rule (880-rule alphabet: 1-2 segment patterns over {a,b,*,a*,?b,**,a+b,a.b,(a),ab} × anchoring × trailing slash × negation), 2 rules (core alphabet quick / full thorough), 3 rules (12-rule core, thorough) × 2 path universes × consumers {Pack+ignore, Pack+ignore+deref through an out-of-tree dir, Pack without ignore, legacy slug.Pack}; oracle: own-path verdict of a segment-wise matcher (ref/glob) for every non-directory path. Non-trivial = the rule file changes at least one verdict relative to the built-in rules; distinct by shipped set."
-	rep.Assumptions = []string{"verdicts are demanded for non-directory paths only", "'**' is used as a whole segment only", "bundle-package consumer is checked under C10/C03b when the builder harness runs"}
+	rep.Rule = "every rule file of 1 rule (880-rule alphabet: 1-2 segment patterns over {a,b,*,a*,?b,**,a+b,a.b,(a),ab} × anchoring × trailing slash × negation), 2 rules (core alphabet quick / full thorough), 3 rules (12-rule core, thorough) × 2 path universes × consumers {Pack+ignore, Pack+ignore+deref through an out-of-tree dir, Pack without ignore, legacy slug.Pack, package fetched into a bundle}; oracle: own-path verdict of a segment-wise matcher (ref/glob) for every non-directory path. Non-trivial = the rule file changes at least one verdict relative to the built-in rules; distinct by shipped set."
+	rep.Assumptions = []string{"verdicts are demanded for non-directory paths only", "'**' is used as a whole segment only", "a failed bundle build is no verdict (counted)"}
 	return rep.Finish()
 }
 
